@@ -646,9 +646,12 @@ func c11DiffClass(s *c11Session, pv, hv clientView) string {
 			hasCast = true
 		}
 	}
+	tokenKeyEmit := strings.Contains(s.prog, hx(vgirpc.MetaStreamState)+"=") || strings.Contains(s.prog, hx(vgirpc.MetaCallState)+"=")
 	switch {
 	case pv.header != hv.header:
 		return "header-differs-" + kind
+	case tokenKeyEmit:
+		return "emit-metadata-token-key-changes-http-view"
 	case kind == "dynamic" && s.kind == "ex" && hasCast && s.decl == 1:
 		return "dynamic-declared-input-schema-not-applied"
 	case strings.Join(pv.items, ",") != strings.Join(hv.items, ","):
